@@ -10,14 +10,18 @@ import (
 	"time"
 
 	"google.golang.org/grpc"
+	"google.golang.org/grpc/metadata"
 	"google.golang.org/protobuf/types/known/emptypb"
+	"google.golang.org/protobuf/types/known/timestamppb"
 
 	"github.com/ozontech/seq-db/consts"
 	"github.com/ozontech/seq-db/disk"
 	"github.com/ozontech/seq-db/logger"
+	"github.com/ozontech/seq-db/pkg/seqproxyapi/v1"
 	pb "github.com/ozontech/seq-db/pkg/storeapi"
 	"github.com/ozontech/seq-db/proxy/search"
 	"github.com/ozontech/seq-db/proxy/stores"
+	"github.com/ozontech/seq-db/proxyapi"
 	"github.com/ozontech/seq-db/querytracer"
 	"github.com/ozontech/seq-db/seq"
 	"github.com/ozontech/seq-db/verifsim"
@@ -62,6 +66,50 @@ type C16Req struct {
 	Size   int  `json:"size"`
 	Desc   bool `json:"desc"`
 	Fetch  bool `json:"fetch"`
+	// "" = search.Ingestor.Search directly; "export" = through the gRPC layer of proxyapi (Export: a stream of
+	// documents whose response type has no way to say "partial")
+	Via string `json:"via,omitempty"`
+}
+
+// recIngestor hands the gRPC layer the real ingestor and keeps what it answered.
+type recIngestor struct {
+	*search.Ingestor
+	qpr *seq.QPR
+	err error
+}
+
+func (ri *recIngestor) Search(ctx context.Context, sr *search.SearchRequest, tr *querytracer.Tracer) (*seq.QPR, search.DocsIterator, time.Duration, error) {
+	qpr, docs, d, err := ri.Ingestor.Search(ctx, sr, tr)
+	ri.qpr, ri.err = qpr, err
+	return qpr, docs, d, err
+}
+
+// exportStream is the server side of an Export call: it collects what is sent.
+type exportStream struct {
+	ctx  context.Context
+	sent []*seqproxyapi.ExportResponse
+}
+
+func (e *exportStream) Send(r *seqproxyapi.ExportResponse) error { e.sent = append(e.sent, r); return nil }
+func (e *exportStream) SetHeader(metadata.MD) error               { return nil }
+func (e *exportStream) SendHeader(metadata.MD) error              { return nil }
+func (e *exportStream) SetTrailer(metadata.MD)                    {}
+func (e *exportStream) Context() context.Context                  { return e.ctx }
+func (e *exportStream) SendMsg(any) error                         { return nil }
+func (e *exportStream) RecvMsg(any) error                         { return nil }
+
+type sentDocs struct {
+	docs []*seqproxyapi.ExportResponse
+	i    int
+}
+
+func (s *sentDocs) Next() (search.StreamingDoc, error) {
+	if s.i >= len(s.docs) {
+		return search.StreamingDoc{}, io.EOF
+	}
+	d := s.docs[s.i]
+	s.i++
+	return search.StreamingDoc{Data: d.GetDoc().GetData()}, nil
 }
 
 type c16Stub struct {
@@ -368,7 +416,31 @@ func (r *c16Runner) script() {
 					r.logf("request %d -> panic recovered by the interceptor: %v", qi, p)
 				}
 			}()
-			qpr, docs, _, err := ing.Search(context.WithValue(context.Background(), recKey{}, r.reqRecord), req, querytracer.New(false, ""))
+			ctx := context.WithValue(context.Background(), recKey{}, r.reqRecord)
+			if rq.Via == "export" {
+				rec := &recIngestor{Ingestor: ing}
+				api := proxyapi.VerifNewGrpcV1(proxyapi.APIConfig{SearchTimeout: time.Minute, ExportTimeout: time.Minute}, rec, nil)
+				stream := &exportStream{ctx: ctx}
+				xerr := api.Export(&seqproxyapi.ExportRequest{Query: &seqproxyapi.SearchQuery{Query: "k0:a", From: timestamppb.New(time.UnixMilli(0)), To: timestamppb.New(time.UnixMilli(4102444800000))},
+					Size: int64(rq.Size), Offset: int64(rq.Offset)}, stream)
+				r.res.Probes["export_requests"]++
+				r.logf("request %d via Export -> %v, %d documents sent (ingestor said: %v)", qi, xerr, len(stream.sent), rec.err)
+				if xerr != nil {
+					return // an error is always an honest outcome
+				}
+				if rec.qpr == nil {
+					r.violate("export_shape", "request %d: Export returned OK without having searched", qi)
+					return
+				}
+				// Export has no partial flag: what it streams with status OK is presented as complete
+				if errors.Is(rec.err, consts.ErrPartialResponse) {
+					r.violate("export_silent_partial", "request %d: Export streamed %d documents and ended with status OK although the search was partial: %v", qi, len(stream.sent), rec.err)
+					return
+				}
+				r.check(qi, rq, hot, cold, rec.qpr, &sentDocs{docs: stream.sent}, rec.err)
+				return
+			}
+			qpr, docs, _, err := ing.Search(ctx, req, querytracer.New(false, ""))
 			r.check(qi, rq, hot, cold, qpr, docs, err)
 		}()
 		if len(r.res.Violations) > 0 {
@@ -612,7 +684,11 @@ func GenC16(seed uint64, thorough bool) *C16Case {
 	script("hot", c.Shards, c.Replicas)
 	script("cold", c.ColdShards, c.ColdRepl)
 	for i := 0; i < r.Range(1, 4); i++ {
-		c.Requests = append(c.Requests, C16Req{Offset: []int{0, 0, 0, 2, 5}[r.Intn(5)], Size: []int{1, 3, 10, 100}[r.Intn(4)], Desc: r.Bool(0.6), Fetch: r.Bool(0.7)})
+		rq := C16Req{Offset: []int{0, 0, 0, 2, 5}[r.Intn(5)], Size: []int{1, 3, 10, 100}[r.Intn(4)], Desc: r.Bool(0.6), Fetch: r.Bool(0.7)}
+		if r.Bool(0.15) {
+			rq.Via, rq.Desc, rq.Fetch = "export", true, true // Export has no order parameter and always fetches
+		}
+		c.Requests = append(c.Requests, rq)
 	}
 	return c
 }
